@@ -16,11 +16,13 @@ Definition entry_ok (pk : nat) (ke : nat * mentry) : Prop :=
 Definition vrow_ok (pk : nat) (r : vrow) : Prop := Forall (entry_ok pk) (vr_memo r).
 Definition vsrc (r : vrow) : nat * phsrc := (vr_dct r, vr_src r).
 Definition mass_ok h s (v : massview) : Prop := mv_rows v = srcs h s /\ mv_pkg v = pkg s.
-Definition vol_ok h s (v : volview) : Prop :=
-  map vsrc (vv_rows v) = srcs h s /\ vv_tp v = tc s /\ vv_pkg v = pkg s /\ Forall (vrow_ok (pkg s)) (vv_rows v).
+(* a volumetric view stored under the key (thermal-condition object) t: right for stream s whatever s's TP object is now *)
+Definition volT h s (t : nat) (v : volview) : Prop :=
+  map vsrc (vv_rows v) = srcs h s /\ vv_tp v = t /\ vv_pkg v = pkg s /\ Forall (vrow_ok (pkg s)) (vv_rows v).
+Definition vol_ok h s (v : volview) : Prop := volT h s (tc s) v.
 Definition views_ok h s : Prop :=
   (forall v, c_mass (getcache h (cch s)) = Some v -> mass_ok h s v) /\
-  (forall v, vol_find (tc s) (c_vols (getcache h (cch s))) = Some v -> vol_ok h s v).
+  (forall t v, vol_find t (c_vols (getcache h (cch s))) = Some v -> volT h s t v).
 Definition wf_stream h s : Prop :=
   (cch s < length (caches h))%nat /\ (multi s = true -> (sdata s < length (arrs h))%nat).
 Definition same_owner s1 s2 : Prop :=
@@ -95,6 +97,8 @@ Proof. intros H. unfold srcs. destruct (multi s); auto. rewrite H; auto. Qed.
 
 Lemma mass_ok_ext h h' s v : srcs h' s = srcs h s -> mass_ok h s v -> mass_ok h' s v.
 Proof. intros E (A & B). split; congruence. Qed.
+Lemma volT_ext h h' s t v : srcs h' s = srcs h s -> volT h s t v -> volT h' s t v.
+Proof. intros E (A & B & C & D). repeat split; try congruence. Qed.
 Lemma vol_ok_ext h h' s v : srcs h' s = srcs h s -> vol_ok h s v -> vol_ok h' s v.
 Proof. intros E (A & B & C & D). repeat split; try congruence. Qed.
 
@@ -108,7 +112,7 @@ Proof.
   - unfold wf_stream. rewrite A, C. exact W.
   - unfold views_ok, getcache. rewrite C. split; intros v Hv.
     + eapply mass_ok_ext; [exact E|]. apply VM; exact Hv.
-    + eapply vol_ok_ext; [exact E|]. apply VV; exact Hv.
+    + intros Hq. eapply volT_ext; [exact E|]. eapply VV; exact Hq.
   - rewrite S. exact SH.
 Qed.
 
@@ -141,7 +145,7 @@ Lemma inv_put_cache h i s x :
   Inv h -> nth_error (streams h) i = Some s ->
   (forall v, c_mass x = Some v -> mass_ok h s v) ->
   (forall t v, vol_find t (c_vols x) = Some v ->
-      (t = tc s /\ vol_ok h s v) \/ vol_find t (c_vols (getcache h (cch s))) = Some v) ->
+      volT h s t v \/ vol_find t (c_vols (getcache h (cch s))) = Some v) ->
   Inv (put_cache h (cch s) x).
 Proof.
   intros I Hs XM XV j s2 Hs2. simpl in Hs2.
@@ -156,12 +160,12 @@ Proof.
       destruct O as (D & M & K & PH & PB).
       unfold views_ok. rewrite <- E, getcache_put_eq by auto. split; intros v Hv.
       * destruct (XM v Hv) as (A & B). split; [rewrite ES; congruence | congruence].
-      * destruct (XV _ _ Hv) as [(T & (A & B & C & F))|Old].
+      * intros Hq. destruct (XV _ _ Hq) as [(A & B & C & F)|Old].
         -- split; [rewrite ES; congruence|split; [congruence|split; [congruence|rewrite <- K; exact F]]].
-        -- rewrite E in Old. destruct (VV2 v Old) as (A & B & C & F). repeat split; auto.
+        -- rewrite E in Old. destruct (VV2 _ _ Old) as (A & B & C & F). repeat split; auto.
     + unfold views_ok. rewrite getcache_put_neq by auto. split; intros v Hv.
       * apply VM2; auto.
-      * apply VV2; auto.
+      * intros Hq. eapply VV2; exact Hq.
   - simpl. exact SH2.
 Qed.
 
@@ -187,7 +191,7 @@ Proof.
   intros I Hs. unfold by_volume. destruct (I i s Hs) as (W & (VM & VV) & SH).
   destruct (vol_find (tc s) (c_vols (getcache h (cch s)))) as [v|] eqn:E.
   - apply VV; auto.
-  - unfold new_volview, vol_ok; simpl. repeat split; auto.
+  - unfold new_volview, vol_ok, volT; simpl. repeat split; auto.
     + rewrite map_map. unfold vsrc; simpl. rewrite <- (map_id (srcs h s)) at 2.
       apply map_ext. intros [a b]; reflexivity.
     + apply Forall_forall. intros r Hr. apply in_map_iff in Hr. destruct Hr as (x & <- & _).
@@ -200,7 +204,7 @@ Proof.
   intros I Hs OK. unfold store_vol. eapply inv_put_cache; [exact I|exact Hs| |]; simpl.
   - intros w Hw. destruct (I i s Hs) as (_ & (VM & _) & _). apply VM; auto.
   - intros t w Hw. destruct (Nat.eq_dec (tc s) t) as [E|N].
-    + subst t. rewrite vol_find_put_eq in Hw. inversion Hw; subst. left; auto.
+    + subst t. rewrite vol_find_put_eq in Hw. inversion Hw; subst. left; exact OK.
     + rewrite vol_find_put_neq in Hw by auto. right; auto.
 Qed.
 
@@ -211,9 +215,9 @@ Proof.
   intros A C O EC ET (VM & VV).
   assert (SR : srcs h' a = srcs h b).
   { rewrite (same_owner_srcs h' a b O). apply srcs_ext. intros _. unfold getarr. rewrite A. reflexivity. }
-  destruct O as (_ & _ & K & _). unfold views_ok, getcache. rewrite C, EC, ET. split; intros v Hv.
+  destruct O as (_ & _ & K & _). unfold views_ok, getcache. rewrite C, EC. split; intros v Hv.
   - destruct (VM v Hv) as (X & Y). split; congruence.
-  - destruct (VV v Hv) as (X & Y & Z & F). split; [congruence|split; [congruence|split; [congruence|rewrite K; exact F]]].
+  - intros Hq. destruct (VV _ _ Hq) as (X & Y & Z & F). split; [congruence|split; [congruence|split; [congruence|rewrite K; exact F]]].
 Qed.
 
 (* ---------- allocation frames ---------- *)
@@ -260,7 +264,7 @@ Proof.
       intros M. rewrite A, app_length. specialize (WA M). lia.
     + unfold views_ok. rewrite EC. split; intros v Hv.
       * eapply mass_ok_ext; [exact ES|]. apply VM; auto.
-      * eapply vol_ok_ext; [exact ES|]. apply VV; auto.
+      * intros Hq. eapply volT_ext; [exact ES|]. eapply VV; exact Hq.
     + intros j' s3 H3 EQ. simpl in H3. rewrite S in H3. destruct (Nat.eq_dec j' i) as [E|N'].
       * subst j'. rewrite nth_error_upd_same in H3 by auto. inversion H3; subst s3.
         exfalso. apply (FRESH j s2 H2). congruence.
@@ -706,7 +710,7 @@ Proof.
     + split. rewrite C, upd_length. exact WC2. rewrite A, upd_length. exact WA2.
     + unfold views_ok. rewrite EC. split; intros v Hv.
       * eapply mass_ok_ext; [exact ES|]. apply VM2; auto.
-      * eapply vol_ok_ext; [exact ES|]. apply VV2; auto.
+      * intros Hq. eapply volT_ext; [exact ES|]. eapply VV2; exact Hq.
     + intros j' s3 H3 EQ. rewrite S in H3. destruct (Nat.eq_dec j' i) as [E|N'].
       * subst j'. rewrite nth_error_upd_same in H3 by auto. inversion H3; subst s3. simpl in EQ.
         exfalso. eapply ALONE; eauto.
@@ -777,7 +781,7 @@ Proof.
   - split. rewrite C, app_length. lia. intros M. rewrite A, app_length. specialize (WA M). lia.
   - unfold views_ok. rewrite EC. split; intros v Hv.
     + eapply mass_ok_ext; [exact ES|]. apply VM; auto.
-    + eapply vol_ok_ext; [exact ES|]. apply VV; auto.
+    + intros Hq. eapply volT_ext; [exact ES|]. eapply VV; exact Hq.
   - rewrite S. exact SH.
 Qed.
 
@@ -954,12 +958,105 @@ Proof.
     cbn [fst]. eapply inv_struct; [| | |exact I3]; reflexivity.
 Qed.
 
+(* ---------- MultiStream.from_streams ---------- *)
+Lemma nth_error_map_seq {A B} (f : nat * A -> B) (l : list A) : forall b j,
+  nth_error (map f (combine (seq b (length l)) l)) j = option_map (fun s => f ((b + j)%nat, s)) (nth_error l j).
+Proof.
+  induction l as [|x l IH]; intros b [|j]; simpl; auto.
+  - rewrite Nat.add_0_r. reflexivity.
+  - rewrite IH. replace (S b + j)%nat with (b + S j)%nat by lia. reflexivity.
+Qed.
+
+Lemma retc_self s : retc s (tc s) = s.
+Proof. destruct s; reflexivity. Qed.
+
+(* re-binding thermal-condition objects and appending a multi-phase stream over existing rows, with a new cache *)
+Lemma inv_adopt h (a : list nat) (g : nat -> stream -> stream) snew :
+  Inv h -> (forall j s, exists t, g j s = retc s t) ->
+  cch snew = length (caches h) -> sdata snew = length (arrs h) ->
+  forall h', arrs h' = arrs h ++ [a] -> caches h' = caches h ++ [cache0] ->
+  streams h' = map (fun js => g (fst js) (snd js)) (combine (seq O (length (streams h))) (streams h)) ++ [snew] ->
+  Inv h'.
+Proof.
+  intros I G CS DS h' A C S.
+  assert (LM : length (map (fun js => g (fst js) (snd js)) (combine (seq O (length (streams h))) (streams h))) = length (streams h)).
+  { rewrite map_length, combine_length, seq_length. lia. }
+  assert (OLD : forall j s2, (j < length (streams h))%nat -> nth_error (streams h') j = Some s2 ->
+                exists s0 t, nth_error (streams h) j = Some s0 /\ s2 = retc s0 t).
+  { intros j s2 L H. rewrite S, nth_error_app1 in H by lia. rewrite nth_error_map_seq in H. simpl in H.
+    destruct (nth_error (streams h) j) as [s0|] eqn:E; simpl in H; [|discriminate]. inversion H.
+    destruct (G j s0) as (t & Gt). exists s0, t. split; auto. }
+  assert (NEW : forall j s2, (length (streams h) <= j)%nat -> nth_error (streams h') j = Some s2 -> j = length (streams h) /\ s2 = snew).
+  { intros j s2 L H. rewrite S, nth_error_app2 in H by lia. rewrite LM in H.
+    destruct (j - length (streams h))%nat as [|n] eqn:Q; simpl in H; [|destruct n; discriminate]. inversion H. split; auto. lia. }
+  intros j s2 H2. destruct (Nat.lt_ge_cases j (length (streams h))) as [L|GE].
+  - destruct (OLD j s2 L H2) as (s0 & t & H0 & E2). subst s2.
+    destruct (I j s0 H0) as ((WC & WA) & (VM & VV) & SH).
+    assert (ES : srcs h' (retc s0 t) = srcs h s0).
+    { unfold srcs. cbn [retc multi sdata phs pbox]. destruct (multi s0) eqn:M; auto.
+      unfold getarr. rewrite A. rewrite nth_app_lt by auto. reflexivity. }
+    assert (EC : getcache h' (cch s0) = getcache h (cch s0)).
+    { unfold getcache. rewrite C. apply nth_app_lt. auto. }
+    split; [|split].
+    + split; cbn [retc cch multi sdata]. rewrite C, app_length; simpl; lia.
+      intros M. rewrite A, app_length. specialize (WA M). lia.
+    + unfold views_ok. cbn [retc cch]. rewrite EC. split.
+      * intros v Hv. destruct (VM v Hv) as (X & Y). split; [rewrite ES; exact X|exact Y].
+      * intros t' v Hv. destruct (VV t' v Hv) as (X & Y & Z & F). split; [rewrite ES; exact X|split; [exact Y|split; [exact Z|exact F]]].
+    + intros j' s3 H3 EQ. cbn [retc cch] in EQ.
+      destruct (Nat.lt_ge_cases j' (length (streams h))) as [L'|GE'].
+      * destruct (OLD j' s3 L' H3) as (s1 & t1 & H1 & E3). subst s3. cbn [retc cch] in EQ.
+        destruct (SH j' s1 H1 EQ) as (D & M & K & PH & PB). repeat split; cbn [retc sdata multi pkg phs pbox]; auto.
+      * destruct (NEW j' s3 GE' H3) as (_ & E3). subst s3. exfalso. lia.
+  - destruct (NEW j s2 GE H2) as (Ej & E2). subst s2.
+    split; [|split].
+    + split. rewrite C, app_length; simpl; lia. intros _. rewrite A, app_length; simpl; lia.
+    + unfold views_ok, getcache. rewrite C, CS, nth_middle. simpl. split; [intros v Hv|intros t v Hv]; discriminate.
+    + intros j' s3 H3 EQ.
+      destruct (Nat.lt_ge_cases j' (length (streams h))) as [L'|GE'].
+      * destruct (OLD j' s3 L' H3) as (s1 & t1 & H1 & E3). subst s3. cbn [retc cch] in EQ.
+        destruct (I j' s1 H1) as ((WC & _) & _). exfalso. lia.
+      * destruct (NEW j' s3 GE' H3) as (_ & E3). subst s3. apply same_owner_refl.
+Qed.
+
+Lemma from_streams_cases h l :
+  (fst (from_streams h l) = h /\ snd (from_streams h l) <> XNone) \/
+  (snd (from_streams h l) = XNone /\
+   exists a g snew, (forall j s, exists t, g j s = retc s t) /\ cch snew = length (caches h) /\
+     sdata snew = length (arrs h) /\
+     arrs (fst (from_streams h l)) = arrs h ++ [a] /\ caches (fst (from_streams h l)) = caches h ++ [cache0] /\
+     rows (fst (from_streams h l)) = rows h /\
+     streams (fst (from_streams h l)) =
+       map (fun js => g (fst js) (snd js)) (combine (seq O (length (streams h))) (streams h)) ++ [snew]).
+Proof.
+  unfold from_streams. destruct l as [|b others]; [left; split; [reflexivity|discriminate]|].
+  destruct (get_streams h (b :: others)) as [ss|]; [|left; split; [reflexivity|discriminate]].
+  destruct ss as [|sb ss']; [left; split; [reflexivity|discriminate]|].
+  destruct (existsb multi (sb :: ss') || existsb (fun s => negb (Nat.eqb (pkg s) (pkg sb))) (sb :: ss'));
+    [left; split; [reflexivity|discriminate]|].
+  match goal with |- context [if ?c then _ else _] => destruct c end; [left; split; [reflexivity|discriminate]|].
+  right. cbn [new_arr new_cache fst snd]. split; [reflexivity|].
+  exists (map (fun p => match find (fun s => phase_eqb (getbox h (pbox s)) p) (sb :: ss') with Some s => sdata s | None => O end)
+              (psort (map (fun s => getbox h (pbox s)) (sb :: ss')))),
+         (fun j s => if existsb (Nat.eqb j) others then retc s (tc sb) else s),
+         (mkstream true (length (arrs h)) O (psort (map (fun s => getbox h (pbox s)) (sb :: ss'))) (pkg sb) (length (caches h)) (tc sb)).
+  split; [|repeat split; reflexivity].
+  intros j s. destruct (existsb (Nat.eqb j) others); [exists (tc sb); reflexivity|exists (tc s); symmetry; apply retc_self].
+Qed.
+
+Lemma inv_from_streams h l : Inv h -> Inv (fst (from_streams h l)).
+Proof.
+  intros I. destruct (from_streams_cases h l) as [(E & _)|(_ & a & g & snew & G & CS & DS & A & C & _ & S)].
+  - rewrite E. exact I.
+  - eapply inv_adopt; eauto.
+Qed.
+
 (* ---------- every operation keeps the invariant; so does every history ---------- *)
 Lemma inv_step h o : Inv h -> Inv (fst (step Vf MWf pkgs utab h o)).
 Proof.
   intros I. unfold step.
-  destruct o as [ |i w|i w|i|i u r k|i u r k v|i u|i u v|i w r k v|i w v|i v|i v|i p|i l|i j f p t|i|i j|i k|i k|i w u r k|i w u r k v|i j w|i w r1 r2];
-    try exact I;
+  destruct o as [ |i w|i w|i|i u r k|i u r k v|i u|i u v|i w r k v|i w v|i v|i v|i p|i l|i j f p t|i|i j|i k|i k|i w u r k|i w u r k v|i j w|i w r1 r2|fl];
+    try exact I; try (apply inv_from_streams; exact I);
     (destruct (nth_error (streams h) i) as [s|] eqn:Hs; [|exact I]).
   - destruct w; [exact I| |].
     + pose proof (inv_read_mass h i s I Hs) as X. destruct (read_mass MWf pkgs h s). exact X.
@@ -1390,14 +1487,21 @@ Proof.
   - destruct (qzerob F); cbn [fst uh with_heap]; [exact I1|apply MR].
 Qed.
 
+Lemma inv_stepU_from U fl : Inv (uh U) -> Inv (uh (fst (stepU Vf MWf pkgs utab U (OFromStreams fl)))).
+Proof.
+  intros I. pose proof (inv_step (uh U) (OFromStreams fl) I) as X. unfold stepU, liftU.
+  destruct (step Vf MWf pkgs utab (uh U) (OFromStreams fl)) as [h1 x]. cbn [fst snd] in *.
+  destruct (is_none x); exact X.
+Qed.
+
 Lemma inv_stepU U o : Inv (uh U) -> Inv (uh (fst (stepU Vf MWf pkgs utab U o))).
 Proof.
   intros I.
   assert (D : Inv (uh (fst (liftU U (step Vf MWf pkgs utab (uh U) o))))).
   { unfold liftU. cbn [fst uh with_heap]. apply inv_step. exact I. }
   unfold stepU.
-  destruct o as [ |i w|i w|i|i u r k|i u r k v|i u|i u v|i w r k v|i w v|i v|i v|i p|i l|i j f p t|i|i j|i k|i k|i w u r k|i w u r k v|i j w|i w r1 r2];
-    try exact D;
+  destruct o as [ |i w|i w|i|i u r k|i u r k v|i u|i u v|i w r k v|i w v|i v|i v|i p|i l|i j f p t|i|i j|i k|i k|i w u r k|i w u r k v|i j w|i w r1 r2|fl];
+    try exact D; try (apply inv_stepU_from; exact I);
     (destruct (nth_error (streams (uh U)) i) as [s|] eqn:Hs; [|try exact I]).
   - destruct (totalU_uh U i s w) as (A & _). destruct (totalU Vf MWf pkgs U i s w) as [U1 x]. cbn [fst] in *. rewrite A. exact I.
   - destruct (flow_lookup_uh U u) as (A & _). destruct (flow_lookup utab U u) as [U1 [[w f]|e]]; cbn [fst] in *.
@@ -1487,6 +1591,13 @@ Proof.
     + apply Y1.
 Qed.
 
+Lemma UC_stepU_from U fl : UC U -> UC (fst (stepU Vf MWf pkgs utab U (OFromStreams fl))).
+Proof.
+  intros C. unfold stepU, liftU.
+  destruct (step Vf MWf pkgs utab (uh U) (OFromStreams fl)) as [h1 x]. cbn [fst snd].
+  destruct (is_none x); (eapply UC_ext; [| |exact C]; reflexivity).
+Qed.
+
 Lemma UC_stepU U o : UC U -> UC (fst (stepU Vf MWf pkgs utab U o)).
 Proof.
   intros UCU.
@@ -1498,8 +1609,8 @@ Proof.
     destruct w; repeat match goal with |- context [if ?c then _ else _] => destruct c end;
       cbn [fst]; try exact UC2; (eapply UC_ext; [| |exact UC2]; reflexivity). }
   unfold stepU.
-  destruct o as [ |i w|i w|i|i u r k|i u r k v|i u|i u v|i w r k v|i w v|i v|i v|i p|i l|i j f p t|i|i j|i k|i k|i w u r k|i w u r k v|i j w|i w r1 r2];
-    try exact D;
+  destruct o as [ |i w|i w|i|i u r k|i u r k v|i u|i u v|i w r k v|i w v|i v|i v|i p|i l|i j f p t|i|i j|i k|i k|i w u r k|i w u r k v|i j w|i w r1 r2|fl];
+    try exact D; try (apply UC_stepU_from; exact UCU);
     (destruct (nth_error (streams (uh U)) i) as [s|] eqn:Hs; [|try exact UCU]).
   - destruct (totalU_uh U i s w) as (_ & A & B). destruct (totalU Vf MWf pkgs U i s w) as [U1 x]. cbn [fst] in *.
     eapply UC_ext; eauto.
@@ -1537,19 +1648,39 @@ Lemma UC_buildU l : UC (buildU l).
 Proof. split; simpl; intros; discriminate. Qed.
 
 (* ---------- no operation but a package reset changes the package of a stream ---------- *)
-Definition PKP h h' : Prop :=
-  forall j s', nth_error (streams h') j = Some s' -> exists s, nth_error (streams h) j = Some s /\ pkg s' = pkg s.
-Lemma PKP_same h h' : streams h' = streams h -> PKP h h'.
-Proof. intros E j s' H. rewrite E in H. eauto. Qed.
-Lemma PKP_trans a b c : PKP a b -> PKP b c -> PKP a c.
-Proof. intros X Y j s' H. destruct (Y j s' H) as (s1 & H1 & E1). destruct (X j s1 H1) as (s0 & H0 & E0). exists s0. split; congruence. Qed.
-Lemma PKP_put h h1 i s s' :
-  streams h1 = streams h -> nth_error (streams h) i = Some s -> pkg s' = pkg s -> PKP h (put_stream h1 i s').
+(* PKP i h h': every stream of h' is a stream of h at the same index with the same package, and every stream other than
+   the i-th also keeps its class (single / multi) and its phases *)
+Definition PKP (i : nat) h h' : Prop :=
+  length (streams h') = length (streams h) /\
+  forall j s', nth_error (streams h') j = Some s' ->
+    exists s, nth_error (streams h) j = Some s /\ pkg s' = pkg s /\ (j <> i -> multi s' = multi s /\ phs s' = phs s).
+Lemma PKP_same i h h' : streams h' = streams h -> PKP i h h'.
+Proof. intros E. split; [rewrite E; reflexivity|]. intros j s' H. rewrite E in H. exists s'. auto. Qed.
+Lemma PKP_trans i a b c : PKP i a b -> PKP i b c -> PKP i a c.
 Proof.
-  intros E Hs P j x H. simpl in H. rewrite E in H.
+  intros (LX & X) (LY & Y). split; [congruence|]. intros j s' H.
+  destruct (Y j s' H) as (s1 & H1 & E1 & F1). destruct (X j s1 H1) as (s0 & H0 & E0 & F0).
+  exists s0. split; [auto|split; [congruence|]]. intros N. destruct (F1 N), (F0 N). split; congruence.
+Qed.
+Lemma PKP_put h h1 i s s' :
+  streams h1 = streams h -> nth_error (streams h) i = Some s -> pkg s' = pkg s -> PKP i h (put_stream h1 i s').
+Proof.
+  intros E Hs P. split; [simpl; rewrite upd_length, E; reflexivity|]. intros j x H. simpl in H. rewrite E in H.
   destruct (Nat.eq_dec j i) as [Q|N].
-  - subst j. rewrite nth_error_upd_same in H by (eapply nth_error_lt; eauto). inversion H; subst. eauto.
-  - rewrite nth_error_upd_other in H by auto. eauto.
+  - subst j. rewrite nth_error_upd_same in H by (eapply nth_error_lt; eauto). inversion H; subst.
+    exists s. split; [auto|split; [auto|]]. intros N. exfalso; apply N; reflexivity.
+  - rewrite nth_error_upd_other in H by auto. exists x. auto.
+Qed.
+(* the i-th stream is replaced by one of the same class, phases and package: nothing changes for any index *)
+Lemma PKP_put_full h h1 i s s' i' :
+  streams h1 = streams h -> nth_error (streams h) i = Some s -> pkg s' = pkg s -> multi s' = multi s -> phs s' = phs s ->
+  PKP i' h (put_stream h1 i s').
+Proof.
+  intros E Hs P M PH. split; [simpl; rewrite upd_length, E; reflexivity|]. intros j x H. simpl in H. rewrite E in H.
+  destruct (Nat.eq_dec j i) as [Q|N].
+  - subst j. rewrite nth_error_upd_same in H by (eapply nth_error_lt; eauto). inversion H; subst.
+    exists s. auto.
+  - rewrite nth_error_upd_other in H by auto. exists x. auto.
 Qed.
 
 Ltac break_ifs := repeat match goal with
@@ -1616,50 +1747,50 @@ Proof.
     reflexivity.
 Qed.
 
-Lemma PKP_multi_to_single h i s p : nth_error (streams h) i = Some s -> PKP h (fst (multi_to_single pkgs h i s p)).
+Lemma PKP_multi_to_single h i s p : nth_error (streams h) i = Some s -> PKP i h (fst (multi_to_single pkgs h i s p)).
 Proof. intros Hs. unfold multi_to_single. cbn [new_row new_box new_cache fst snd]. eapply (PKP_put h _ i s); [reflexivity|exact Hs|reflexivity]. Qed.
-Lemma PKP_set_phase h i s p : nth_error (streams h) i = Some s -> PKP h (fst (set_phase pkgs h i s p)).
+Lemma PKP_set_phase h i s p : nth_error (streams h) i = Some s -> PKP i h (fst (set_phase pkgs h i s p)).
 Proof. intros Hs. unfold set_phase. destruct (multi s). apply PKP_multi_to_single; auto. apply PKP_same; reflexivity. Qed.
-Lemma PKP_single_to_multi h i s l : nth_error (streams h) i = Some s -> PKP h (fst (single_to_multi pkgs h i s l)).
+Lemma PKP_single_to_multi h i s l : nth_error (streams h) i = Some s -> PKP i h (fst (single_to_multi pkgs h i s l)).
 Proof.
   intros Hs. unfold single_to_multi.
   match goal with |- context [match ?x with Some _ => _ | None => _ end] => destruct x as [vals|] end; [|apply PKP_same; reflexivity].
   frame_rows h vals rs h1. cbn [new_arr new_cache fst snd]. eapply (PKP_put h _ i s); [simpl; congruence|exact Hs|reflexivity].
 Qed.
-Lemma PKP_multi_to_multi h i s l : nth_error (streams h) i = Some s -> PKP h (fst (multi_to_multi pkgs h i s l)).
+Lemma PKP_multi_to_multi h i s l : nth_error (streams h) i = Some s -> PKP i h (fst (multi_to_multi pkgs h i s l)).
 Proof.
   intros Hs. unfold multi_to_multi. destruct (phases_eqb (psort l) (phs s)); [apply PKP_same; reflexivity|].
   match goal with |- context [match ?x with Some _ => _ | None => _ end] => destruct x as [vals|] end; [|apply PKP_same; reflexivity].
   frame_rows h vals rs h1. cbn [new_arr new_cache fst snd]. eapply (PKP_put h _ i s); [simpl; congruence|exact Hs|reflexivity].
 Qed.
-Lemma PKP_set_phases h i s l : nth_error (streams h) i = Some s -> PKP h (fst (set_phases pkgs h i s l)).
+Lemma PKP_set_phases h i s l : nth_error (streams h) i = Some s -> PKP i h (fst (set_phases pkgs h i s l)).
 Proof.
   intros Hs. unfold set_phases. destruct (psort l) as [|p [|q r]].
   - apply PKP_same; reflexivity.
   - apply PKP_set_phase; auto.
   - destruct (multi s); [apply PKP_multi_to_multi|apply PKP_single_to_multi]; auto.
 Qed.
-Lemma PKP_link h i s o f p t : nth_error (streams h) i = Some s -> PKP h (fst (link_with h i s o f p t)).
+Lemma PKP_link h i s o f p t i' : nth_error (streams h) i = Some s -> PKP i' h (fst (link_with h i s o f p t)).
 Proof.
   intros Hs. unfold link_with.
   destruct (negb (Bool.eqb (multi s) (multi o))); [apply PKP_same; reflexivity|].
   destruct (negb (Nat.eqb (pkg s) (pkg o))); [apply PKP_same; reflexivity|].
   destruct (multi s && f && negb (phases_eqb (phs s) (phs o))); [apply PKP_same; reflexivity|].
   destruct (t && f && (p || multi s)); cbn [new_cache fst snd];
-    (eapply (PKP_put h _ i s); [reflexivity|exact Hs|reflexivity]).
+    (eapply (PKP_put_full h _ i s); [reflexivity|exact Hs|reflexivity|reflexivity|reflexivity]).
 Qed.
-Lemma PKP_unlink h i s : nth_error (streams h) i = Some s -> PKP h (fst (unlink h i s)).
+Lemma PKP_unlink h i s i' : nth_error (streams h) i = Some s -> PKP i' h (fst (unlink h i s)).
 Proof.
-  intros Hs. unfold unlink. destruct (multi s).
+  intros Hs. unfold unlink. destruct (multi s) eqn:M.
   - cbn [new_cache new_box new_tp fst snd].
     match goal with |- context [copy_rows ?a ?b] => pose proof (new_rows_frame a (map (getrow a) b)) as F; unfold copy_rows; destruct (new_rows a (map (getrow a) b)) as [rs hh] end.
-    cbn [fst snd] in F. destruct F as (_ & _ & FS). cbn [new_arr new_tp fst snd]. eapply (PKP_put h _ i s); [simpl; simpl in FS; congruence|exact Hs|reflexivity].
-  - cbn [new_cache new_box new_tp new_row fst snd]. eapply (PKP_put h _ i s); [reflexivity|exact Hs|reflexivity].
+    cbn [fst snd] in F. destruct F as (_ & _ & FS). cbn [new_arr new_tp fst snd]. eapply (PKP_put_full h _ i s); [simpl; simpl in FS; congruence|exact Hs|reflexivity|cbn; congruence|reflexivity].
+  - cbn [new_cache new_box new_tp new_row fst snd]. eapply (PKP_put_full h _ i s); [reflexivity|exact Hs|reflexivity|cbn; congruence|reflexivity].
 Qed.
 Lemma copy_rows_like_streams h d x : streams (copy_rows_like h d x) = streams h.
 Proof. apply copy_rows_like_struct. Qed.
 
-Lemma PKP_copy_like h i s o same : nth_error (streams h) i = Some s -> PKP h (fst (copy_like pkgs h i s o same)).
+Lemma PKP_copy_like h i s o same : nth_error (streams h) i = Some s -> PKP i h (fst (copy_like pkgs h i s o same)).
 Proof.
   intros Hs. unfold copy_like. destruct same; [apply PKP_same; reflexivity|].
   destruct (negb (Nat.eqb (pkg s) (pkg o))); [apply PKP_same; reflexivity|].
@@ -1671,24 +1802,25 @@ Proof.
       match goal with |- context [expand_rows ?a ?b ?c ?d] => pose proof (expand_rows_frame b c d a) as F; destruct (expand_rows a b c d) as [rs h1] end.
       cbn [fst snd] in F. destruct F as (_ & _ & FS).
       assert (E0 : streams (empty_all h s) = streams h) by apply map_rows_streams.
-      assert (G : forall hx, streams hx = upd (streams h1) i (mkstream true (sdata s) (pbox s) (psort (getbox h (pbox o) :: phs s)) (pkg s) (cch s) (tc s)) -> PKP h hx).
-      { intros hx Ex j x H. rewrite Ex, FS, E0 in H. destruct (Nat.eq_dec j i) as [Q|N].
-        - subst j. rewrite nth_error_upd_same in H by (eapply nth_error_lt; eauto). inversion H; subst. eauto.
-        - rewrite nth_error_upd_other in H by auto. eauto. }
+      assert (G : forall hx, streams hx = upd (streams h1) i (mkstream true (sdata s) (pbox s) (psort (getbox h (pbox o) :: phs s)) (pkg s) (cch s) (tc s)) -> PKP i h hx).
+      { intros hx Ex. split; [rewrite Ex, upd_length, FS, E0; reflexivity|]. intros j x H. rewrite Ex, FS, E0 in H. destruct (Nat.eq_dec j i) as [Q|N].
+        - subst j. rewrite nth_error_upd_same in H by (eapply nth_error_lt; eauto). inversion H; subst.
+          exists s. split; [auto|split; [reflexivity|]]. intros N. exfalso; apply N; reflexivity.
+        - rewrite nth_error_upd_other in H by auto. exists x. auto. }
       destruct (pindex (psort (getbox h (pbox o) :: phs s)) (getbox h (pbox o))) as [k|].
       * destruct (nth_error rs k); cbn [fst]; apply G; reflexivity.
       * cbn [fst]. apply G; reflexivity.
   - destruct (phs o) as [|p [|q r]].
     + pose proof (PKP_single_to_multi (put_row h (sdata s) (vzero (length (getrow h (sdata s))))) i s [] Hs) as P1.
       destruct (single_to_multi pkgs (put_row h (sdata s) (vzero (length (getrow h (sdata s))))) i s []) as [h1 x]. cbn [fst] in P1.
-      assert (P0 : PKP h h1) by (intros j y H; apply (P1 j y H)).
+      assert (P0 : PKP i h h1) by exact P1.
       destruct x; try exact P0.
       destruct (nth_error (streams h1) i) as [s1|]; [|exact P0]. cbn [fst].
       eapply PKP_trans; [exact P0|]. apply PKP_same. simpl. apply copy_rows_like_streams.
     + apply PKP_same. reflexivity.
     + pose proof (PKP_single_to_multi (put_row h (sdata s) (vzero (length (getrow h (sdata s))))) i s (p :: q :: r) Hs) as P1.
       destruct (single_to_multi pkgs (put_row h (sdata s) (vzero (length (getrow h (sdata s))))) i s (p :: q :: r)) as [h1 x]. cbn [fst] in P1.
-      assert (P0 : PKP h h1) by (intros j y H; apply (P1 j y H)).
+      assert (P0 : PKP i h h1) by exact P1.
       destruct x; try exact P0.
       destruct (nth_error (streams h1) i) as [s1|]; [|exact P0]. cbn [fst].
       eapply PKP_trans; [exact P0|]. apply PKP_same. simpl. apply copy_rows_like_streams.
@@ -1716,11 +1848,15 @@ Proof.
 Qed.
 
 (* every operation other than a package reset of stream i keeps the package of stream i *)
-Lemma step_PKP h o : (forall i k, o <> OThermo i k) -> PKP h (fst (step Vf MWf pkgs utab h o)).
+(* the stream whose indexer an operation may replace by one of another class / other phases *)
+Definition tgt (o : op) : option nat :=
+  match o with OPhase i _ | OPhases i _ | OCopyLike i _ => Some i | _ => None end.
+Lemma step_PKP h o i' : (forall i k, o <> OThermo i k) -> (forall l, o <> OFromStreams l) ->
+  (forall i, tgt o = Some i -> i = i') -> PKP i' h (fst (step Vf MWf pkgs utab h o)).
 Proof.
-  intros NT. unfold step.
-  destruct o as [ |i w|i w|i|i u r k|i u r k v|i u|i u v|i w r k v|i w v|i v|i v|i p|i l|i j f p t|i|i j|i k|i k|i w u r k|i w u r k v|i j w|i w r1 r2];
-    try (apply PKP_same; reflexivity);
+  intros NT NF TG. unfold step.
+  destruct o as [ |i w|i w|i|i u r k|i u r k v|i u|i u v|i w r k v|i w v|i v|i v|i p|i l|i j f p t|i|i j|i k|i k|i w u r k|i w u r k v|i j w|i w r1 r2|fl];
+    try (apply PKP_same; reflexivity); try (exfalso; eapply NF; reflexivity);
     (destruct (nth_error (streams h) i) as [s|] eqn:Hs; [|apply PKP_same; reflexivity]).
   - apply PKP_same. destruct w; [reflexivity| |].
     + pose proof (read_mass_streams h s) as X. destruct (read_mass MWf pkgs h s). exact X.
@@ -1736,12 +1872,12 @@ Proof.
   - apply PKP_same. apply set_total_streams.
   - apply PKP_same. reflexivity.
   - apply PKP_same. reflexivity.
-  - apply PKP_set_phase; auto.
-  - apply PKP_set_phases; auto.
+  - rewrite <- (TG i eq_refl). apply PKP_set_phase; auto.
+  - rewrite <- (TG i eq_refl). apply PKP_set_phases; auto.
   - destruct (nth_error (streams h) j) as [o|]; [|apply PKP_same; reflexivity].
     destruct (Nat.eqb i j); [apply PKP_same; reflexivity|]. apply PKP_link; auto.
   - apply PKP_unlink; auto.
-  - destruct (nth_error (streams h) j) as [o|]; [|apply PKP_same; reflexivity]. apply PKP_copy_like; auto.
+  - destruct (nth_error (streams h) j) as [o|]; [|apply PKP_same; reflexivity]. rewrite <- (TG i eq_refl). apply PKP_copy_like; auto.
   - exfalso. eapply NT; reflexivity.
   - apply PKP_same. apply round_trip_streams; auto.
   - apply PKP_same. destruct (conv utab w u) as [f|e].
@@ -1780,9 +1916,9 @@ Qed.
 Definition PM U : Prop := forall i k v s, pm_get U i = Some (k, v) -> nth_error (streams (uh U)) i = Some s ->
   v == vmix_key Vf (chems pkgs (pkg s)) k.
 
-Lemma PM_ext U U' : PKP (uh U) (uh U') -> u_pm U' = u_pm U -> PM U -> PM U'.
+Lemma PM_ext i0 U U' : PKP i0 (uh U) (uh U') -> u_pm U' = u_pm U -> PM U -> PM U'.
 Proof.
-  intros PK E P i k v s' G H. destruct (PK i s' H) as (s & Hs & EP). rewrite EP.
+  intros PK E P i k v s' G H. destruct (proj2 PK i s' H) as (s & Hs & EP & _). rewrite EP.
   apply (P i k v s); auto. unfold pm_get in *. rewrite <- E. exact G.
 Qed.
 
@@ -1833,37 +1969,67 @@ Proof.
   destruct (totalU_uh U i s w) as (A & _).
   destruct (totalU Vf MWf pkgs U i s w) as [U1 F]. cbn [fst] in *.
   assert (SC : forall f, PM (with_heap U1 (map_rows (uh U1) f (rowrefs (uh U1) s)))).
-  { intros f. eapply PM_ext; [| |exact P1]; [|reflexivity]. apply PKP_same. simpl. apply map_rows_streams. }
+  { intros f. eapply (PM_ext O); [| |exact P1]; [|reflexivity]. apply PKP_same. simpl. apply map_rows_streams. }
   unfold scale_all, empty_all.
   destruct w; repeat match goal with |- context [if ?c then _ else _] => destruct c end; cbn [fst]; try exact P1; apply SC.
+Qed.
+
+Lemma nth_app_none {A} (l : list (option A)) j : nth j (l ++ [None]) None = nth j l None.
+Proof.
+  revert j; induction l as [|a l IH]; intros [|j]; simpl; auto. destruct j; reflexivity.
+Qed.
+Lemma nth_upd_none {A} (l : list (option A)) n : nth n (upd l n None) None = None.
+Proof. revert n; induction l as [|a l IH]; intros [|n]; simpl; auto. Qed.
+
+Lemma PM_stepU_from U fl : PM U -> PM (fst (stepU Vf MWf pkgs utab U (OFromStreams fl))).
+Proof.
+  intros P. unfold stepU, liftU, step.
+  destruct (from_streams_cases (uh U) fl) as [(E & NX)|(X & a & g & snew & G & _ & _ & _ & _ & _ & S)].
+  - destruct (from_streams (uh U) fl) as [h1 x]. cbn [fst snd] in *. subst h1.
+    destruct x; cbn [is_none fst]; try (eapply (PM_ext O); [| |exact P]; [apply PKP_same|]; reflexivity). congruence.
+  - destruct (from_streams (uh U) fl) as [h1 x]. cbn [fst snd] in *. subst x. cbn [is_none fst].
+    intros j k v s2 GM H. unfold pm_get in GM. cbn [u_pm uh with_heap] in GM, H.
+    set (n := length (streams (uh U))) in *.
+    assert (LM : length (map (fun js => g (fst js) (snd js)) (combine (seq O n) (streams (uh U)))) = n).
+    { rewrite map_length, combine_length, seq_length. unfold n. lia. }
+    destruct (Nat.eq_dec j n) as [Q|N].
+    + subst j. rewrite nth_upd_none in GM. discriminate.
+    + rewrite nth_upd_neq in GM by auto. rewrite nth_app_none in GM.
+      rewrite S in H. destruct (Nat.lt_ge_cases j n) as [L|GE].
+      * rewrite nth_error_app1 in H by lia. unfold n in H. rewrite nth_error_map_seq in H. simpl in H.
+        destruct (nth_error (streams (uh U)) j) as [s0|] eqn:E0; simpl in H; [|discriminate]. inversion H.
+        destruct (G j s0) as (t & Gt). rewrite Gt. cbn [retc pkg]. apply (P j k v s0); auto.
+      * rewrite nth_error_app2 in H by lia. rewrite LM in H.
+        destruct (j - n)%nat as [|m] eqn:Q; simpl in H; [exfalso; lia|destruct m; discriminate].
 Qed.
 
 Lemma PM_stepU U o : PM U -> PM (fst (stepU Vf MWf pkgs utab U o)).
 Proof.
   intros P.
-  assert (D : (forall i k, o <> OThermo i k) -> PM (fst (liftU U (step Vf MWf pkgs utab (uh U) o)))).
-  { intros NT. eapply PM_ext; [| |exact P]; [|reflexivity]. unfold liftU. cbn [fst uh with_heap]. apply step_PKP. exact NT. }
+  assert (D : (forall i k, o <> OThermo i k) -> (forall l, o <> OFromStreams l) -> PM (fst (liftU U (step Vf MWf pkgs utab (uh U) o)))).
+  { intros NT NF. eapply (PM_ext (match tgt o with Some i => i | None => O end)); [| |exact P]; [|reflexivity]. unfold liftU. cbn [fst uh with_heap].
+    apply step_PKP; try assumption. intros i E. rewrite E. reflexivity. }
   unfold stepU.
-  destruct o as [ |i w|i w|i|i u r k|i u r k v|i u|i u v|i w r k v|i w v|i v|i v|i p|i l|i j f p t|i|i j|i k|i k|i w u r k|i w u r k v|i j w|i w r1 r2];
-    try (apply D; intros; discriminate);
+  destruct o as [ |i w|i w|i|i u r k|i u r k v|i u|i u v|i w r k v|i w v|i v|i v|i p|i l|i j f p t|i|i j|i k|i k|i w u r k|i w u r k v|i j w|i w r1 r2|fl];
+    try (apply PM_stepU_from; exact P); try (apply D; [intros; discriminate|intros; discriminate]);
     (destruct (nth_error (streams (uh U)) i) as [s|] eqn:Hs; [|try exact P]).
   - pose proof (totalU_PM U i s w P Hs) as X. destruct (totalU Vf MWf pkgs U i s w) as [U1 x]. exact X.
   - destruct (flow_lookup_uh U u) as (A & B). destruct (flow_lookup utab U u) as [U1 [[w f]|e]]; cbn [fst] in *.
-    + eapply PM_ext; [| |exact P]; [|exact B]. apply PKP_same. unfold liftU, lift. cbn [fst uh with_heap]. rewrite A.
+    + eapply (PM_ext O); [| |exact P]; [|exact B]. apply PKP_same. unfold liftU, lift. cbn [fst uh with_heap]. rewrite A.
       pose proof (get_item_streams (uh U) s w r k) as X. destruct (get_item Vf MWf pkgs (uh U) s w r k) as [h1 [x|e]]; exact X.
-    + eapply PM_ext; [| |exact P]; [|exact B]. apply PKP_same. rewrite A. reflexivity.
+    + eapply (PM_ext O); [| |exact P]; [|exact B]. apply PKP_same. rewrite A. reflexivity.
   - destruct (flow_lookup_uh U u) as (A & B). destruct (flow_lookup utab U u) as [U1 [[w f]|e]]; cbn [fst] in *.
-    + eapply PM_ext; [| |exact P]; [|exact B]. apply PKP_same. unfold liftU. cbn [fst uh with_heap]. rewrite A. apply set_item_streams.
-    + eapply PM_ext; [| |exact P]; [|exact B]. apply PKP_same. rewrite A. reflexivity.
+    + eapply (PM_ext O); [| |exact P]; [|exact B]. apply PKP_same. unfold liftU. cbn [fst uh with_heap]. rewrite A. apply set_item_streams.
+    + eapply (PM_ext O); [| |exact P]; [|exact B]. apply PKP_same. rewrite A. reflexivity.
   - destruct (flow_lookup_uh U u) as (A & B). destruct (flow_lookup utab U u) as [U1 [[w f]|e]] eqn:FL; cbn [fst] in *.
-    + assert (P1 : PM U1) by (eapply PM_ext; [| |exact P]; [apply PKP_same; rewrite A; reflexivity|exact B]).
+    + assert (P1 : PM U1) by (eapply (PM_ext O); [| |exact P]; [apply PKP_same; rewrite A; reflexivity|exact B]).
       assert (Hs1 : nth_error (streams (uh U1)) i = Some s) by (rewrite A; exact Hs).
       pose proof (totalU_PM U1 i s w P1 Hs1) as X. destruct (totalU Vf MWf pkgs U1 i s w) as [U2 x]. exact X.
-    + eapply PM_ext; [| |exact P]; [|exact B]. apply PKP_same. rewrite A. reflexivity.
+    + eapply (PM_ext O); [| |exact P]; [|exact B]. apply PKP_same. rewrite A. reflexivity.
   - destruct (flow_lookup_uh U u) as (A & B). destruct (flow_lookup utab U u) as [U1 [[w f]|e]]; cbn [fst] in *.
-    + assert (P1 : PM U1) by (eapply PM_ext; [| |exact P]; [apply PKP_same; rewrite A; reflexivity|exact B]).
+    + assert (P1 : PM U1) by (eapply (PM_ext O); [| |exact P]; [apply PKP_same; rewrite A; reflexivity|exact B]).
       apply set_totalU_PM; auto. rewrite A; exact Hs.
-    + eapply PM_ext; [| |exact P]; [|exact B]. apply PKP_same. rewrite A. reflexivity.
+    + eapply (PM_ext O); [| |exact P]; [|exact B]. apply PKP_same. rewrite A. reflexivity.
   - apply set_totalU_PM; auto.
   - assert (X : PM (fst (liftU U (step Vf MWf pkgs utab (uh U) (OPhases i l))))) by (apply D; intros; discriminate).
     destruct (liftU U (step Vf MWf pkgs utab (uh U) (OPhases i l))) as [U1 x]. cbn [fst] in *.
@@ -1877,7 +2043,7 @@ Proof.
   - (* _reset_thermo: the package of stream i changes and its memo is dropped *)
     unfold liftU, step. rewrite Hs. unfold reset_thermo.
     destruct (Nat.eqb (pkg s) k) eqn:Q; cbn [fst snd].
-    + eapply PM_ext; [| |exact P]; [apply PKP_same|]; reflexivity.
+    + eapply (PM_ext O); [| |exact P]; [apply PKP_same|]; reflexivity.
     + destruct (reset_none_shape (uh U) i s k) as (a & s1 & S1 & _).
       set (h1 := fst (reset_chemicals pkgs (uh U) i s k None)) in *.
       intros j kk v s2 G H.
@@ -1889,12 +2055,12 @@ Proof.
         -- rewrite nth_overflow in G by (rewrite upd_length; auto). discriminate.
       * rewrite nth_upd_neq in G by auto. rewrite nth_error_upd_other in H by auto. apply (P j kk v s2); auto.
   - destruct (cfactor_uh U w u) as (A & B). destruct (cfactor utab U w u) as [U1 [f|e]]; cbn [fst] in *.
-    + eapply PM_ext; [| |exact P]; [|exact B]. apply PKP_same. unfold liftU, lift. cbn [fst uh with_heap]. rewrite A.
+    + eapply (PM_ext O); [| |exact P]; [|exact B]. apply PKP_same. unfold liftU, lift. cbn [fst uh with_heap]. rewrite A.
       pose proof (get_item_streams (uh U) s w r k) as X. destruct (get_item Vf MWf pkgs (uh U) s w r k) as [h1 [x|e]]; exact X.
-    + eapply PM_ext; [| |exact P]; [|exact B]. apply PKP_same. cbn [uh with_heap]. rewrite A. apply touch_view_streams.
+    + eapply (PM_ext O); [| |exact P]; [|exact B]. apply PKP_same. cbn [uh with_heap]. rewrite A. apply touch_view_streams.
   - destruct (cfactor_uh U w u) as (A & B). destruct (cfactor utab U w u) as [U1 [f|e]]; cbn [fst] in *.
-    + eapply PM_ext; [| |exact P]; [|exact B]. apply PKP_same. unfold liftU. cbn [fst uh with_heap]. rewrite A. apply set_item_streams.
-    + eapply PM_ext; [| |exact P]; [|exact B]. apply PKP_same. cbn [uh with_heap]. rewrite A. apply touch_view_streams.
+    + eapply (PM_ext O); [| |exact P]; [|exact B]. apply PKP_same. unfold liftU. cbn [fst uh with_heap]. rewrite A. apply set_item_streams.
+    + eapply (PM_ext O); [| |exact P]; [|exact B]. apply PKP_same. cbn [uh with_heap]. rewrite A. apply touch_view_streams.
 Qed.
 
 Lemma PM_runU ops : forall U, PM U -> PM (fst (runU Vf MWf pkgs utab U ops)).
@@ -1959,6 +2125,193 @@ Proof.
         repeat (split; [assumption|]). unfold nthq in *; simpl.
         rewrite <- (vsrc_src _ _ FS), <- (vsrc_src _ _ FS').
         replace (k + S j)%nat with (S k + j)%nat by lia. exact V.
+Qed.
+
+(* ---------- which index dict the molar indexer consults ---------- *)
+Lemma set_totalU_streams U i s w v : streams (uh (fst (set_totalU Vf MWf pkgs U i s w v))) = streams (uh U).
+Proof.
+  unfold set_totalU. destruct (totalU_uh U i s w) as (A & _).
+  destruct (totalU Vf MWf pkgs U i s w) as [U1 F]. cbn [fst] in A.
+  unfold scale_all, empty_all.
+  destruct w; repeat match goal with |- context [if ?c then _ else _] => destruct c end;
+    cbn [fst uh with_heap]; rewrite ?map_rows_streams; rewrite A; reflexivity.
+Qed.
+
+Lemma stepU_PKP U o i' : (forall i k, o <> OThermo i k) -> (forall l, o <> OFromStreams l) ->
+  (forall i, tgt o = Some i -> i = i') -> PKP i' (uh U) (uh (fst (stepU Vf MWf pkgs utab U o))).
+Proof.
+  intros NT NF TG.
+  assert (D : PKP i' (uh U) (uh (fst (liftU U (step Vf MWf pkgs utab (uh U) o))))).
+  { unfold liftU. cbn [fst uh with_heap]. apply step_PKP; assumption. }
+  unfold stepU.
+  destruct o as [ |i w|i w|i|i u r k|i u r k v|i u|i u v|i w r k v|i w v|i v|i v|i p|i l|i j f p t|i|i j|i k|i k|i w u r k|i w u r k v|i j w|i w r1 r2|fl];
+    try exact D; try (exfalso; eapply NF; reflexivity);
+    (destruct (nth_error (streams (uh U)) i) as [s|] eqn:Hs; [|try (apply PKP_same; reflexivity)]).
+  - destruct (totalU_uh U i s w) as (A & _). destruct (totalU Vf MWf pkgs U i s w) as [U1 x]. cbn [fst] in *. apply PKP_same. rewrite A. reflexivity.
+  - destruct (flow_lookup_uh U u) as (A & _). destruct (flow_lookup utab U u) as [U1 [[w f]|e]]; cbn [fst] in *; apply PKP_same.
+    + unfold liftU, lift. cbn [fst uh with_heap]. rewrite A.
+      pose proof (get_item_streams (uh U) s w r k) as X. destruct (get_item Vf MWf pkgs (uh U) s w r k) as [h1 [x|e]]; exact X.
+    + rewrite A. reflexivity.
+  - destruct (flow_lookup_uh U u) as (A & _). destruct (flow_lookup utab U u) as [U1 [[w f]|e]]; cbn [fst] in *; apply PKP_same.
+    + unfold liftU. cbn [fst uh with_heap]. rewrite A. apply set_item_streams.
+    + rewrite A. reflexivity.
+  - destruct (flow_lookup_uh U u) as (A & _). destruct (flow_lookup utab U u) as [U1 [[w f]|e]]; cbn [fst] in *; apply PKP_same.
+    + destruct (totalU_uh U1 i s w) as (B & _). destruct (totalU Vf MWf pkgs U1 i s w) as [U2 x]. cbn [fst] in *. rewrite B, A. reflexivity.
+    + rewrite A. reflexivity.
+  - destruct (flow_lookup_uh U u) as (A & _). destruct (flow_lookup utab U u) as [U1 [[w f]|e]]; cbn [fst] in *; apply PKP_same.
+    + rewrite set_totalU_streams, A. reflexivity.
+    + rewrite A. reflexivity.
+  - apply PKP_same. apply set_totalU_streams.
+  - unfold liftU in *. destruct (step Vf MWf pkgs utab (uh U) (OPhases i l)) as [h1 x]. cbn [fst snd] in *.
+    match goal with |- context [if ?c then _ else _] => destruct c end; exact D.
+  - unfold liftU in *. destruct (step Vf MWf pkgs utab (uh U) (OUnlink i)) as [h1 x]. cbn [fst snd] in *.
+    destruct (is_none x); exact D.
+  - unfold liftU in *. destruct (step Vf MWf pkgs utab (uh U) (OUnlink i)) as [h1 x]. cbn [fst snd] in *.
+    destruct (is_none x); exact D.
+  - exfalso. eapply NT; reflexivity.
+  - destruct (cfactor_uh U w u) as (A & _). destruct (cfactor utab U w u) as [U1 [f|e]]; cbn [fst] in *; apply PKP_same.
+    + unfold liftU, lift. cbn [fst uh with_heap]. rewrite A.
+      pose proof (get_item_streams (uh U) s w r k) as X. destruct (get_item Vf MWf pkgs (uh U) s w r k) as [h1 [x|e]]; exact X.
+    + cbn [uh with_heap]. rewrite A. apply touch_view_streams.
+  - destruct (cfactor_uh U w u) as (A & _). destruct (cfactor utab U w u) as [U1 [f|e]]; cbn [fst] in *; apply PKP_same.
+    + unfold liftU. cbn [fst uh with_heap]. rewrite A. apply set_item_streams.
+    + cbn [uh with_heap]. rewrite A. apply touch_view_streams.
+Qed.
+
+Definition ICI K : Prop :=
+  length (k_ic K) = length (streams (uh (ku K))) /\
+  forall i s, nth_error (streams (uh (ku K))) i = Some s -> ic_get K i = ic_of s.
+
+Lemma ic_of_eq s s' : multi s' = multi s -> phs s' = phs s -> pkg s' = pkg s -> ic_of s' = ic_of s.
+Proof. intros A B C. unfold ic_of. rewrite A, B, C. reflexivity. Qed.
+
+(* every stream but (possibly) the i-th is still of the class, phases and package it had *)
+Definition SHP (i : nat) h h' : Prop :=
+  length (streams h') = length (streams h) /\
+  forall j s', nth_error (streams h') j = Some s' -> j <> i ->
+    exists s, nth_error (streams h) j = Some s /\ ic_of s' = ic_of s.
+Lemma PKP_SHP i h h' : PKP i h h' -> SHP i h h'.
+Proof.
+  intros (L & P). split; [exact L|]. intros j s' H N. destruct (P j s' H) as (s0 & H0 & EP & F).
+  destruct (F N) as (M & PH). exists s0. split; [exact H0|apply ic_of_eq; auto].
+Qed.
+
+Lemma ICI_refresh K U1 i : ICI K -> SHP i (uh (ku K)) (uh U1) ->
+  ICI (mkK U1 (ic_refresh (uh U1) (k_ic K) i)).
+Proof.
+  intros (L & IC) (LP & P). unfold ICI, ic_get, ic_refresh. cbn [ku k_ic].
+  destruct (nth_error (streams (uh U1)) i) as [si|] eqn:Hi.
+  - split; [rewrite upd_length; congruence|]. intros j s' H. destruct (Nat.eq_dec j i) as [Q|N].
+    + subst j. rewrite nth_upd_eq by (rewrite L, <- LP; eapply nth_error_lt; eauto). congruence.
+    + rewrite nth_upd_neq by auto. destruct (P j s' H N) as (s0 & H0 & E). rewrite E. apply IC. exact H0.
+  - split; [congruence|]. intros j s' H. destruct (Nat.eq_dec j i) as [Q|N]; [congruence|].
+    destruct (P j s' H N) as (s0 & H0 & E). rewrite E. apply IC. exact H0.
+Qed.
+Lemma ICI_keep K U1 : ICI K -> (forall i', PKP i' (uh (ku K)) (uh U1)) -> ICI (mkK U1 (k_ic K)).
+Proof.
+  intros (L & IC) P. destruct (P O) as (LP & _). split; cbn [ku k_ic]; [congruence|].
+  intros j s' H. destruct (P (S j)) as (_ & PJ). destruct (PJ j s' H) as (s0 & H0 & EP & F).
+  destruct (F (Nat.neq_succ_diag_r j)) as (M & PH). unfold ic_get. cbn [k_ic].
+  rewrite (ic_of_eq s0 s' M PH EP). apply IC. exact H0.
+Qed.
+
+Lemma stepU_from_heap U fl :
+  uh (fst (stepU Vf MWf pkgs utab U (OFromStreams fl))) = fst (from_streams (uh U) fl) /\
+  snd (stepU Vf MWf pkgs utab U (OFromStreams fl)) = snd (from_streams (uh U) fl).
+Proof.
+  unfold stepU, liftU, step. destruct (from_streams (uh U) fl) as [h1 x]. cbn [fst snd].
+  destruct (is_none x); split; reflexivity.
+Qed.
+
+Lemma ICI_stepK K o : ICI K -> ICI (fst (stepK Vf MWf pkgs utab K o)).
+Proof.
+  intros I. unfold stepK.
+  destruct (keyed utab o) as [[[[i0 [w0|]] r0] k0]|] eqn:KQ.
+  - (* a name-keyed access: the same kind of operation with positions in place of the key *)
+    destruct (nth_error (streams (uh (ku K))) i0) as [s0|].
+    + destruct (resolve pkgs K i0 s0 w0 r0 k0) as [rk|e]; [|exact I].
+      destruct (stepU Vf MWf pkgs utab (ku K) (rekey o (fst rk) (snd rk))) as [U1 x] eqn:SU. cbn [fst].
+      assert (UH : uh U1 = uh (fst (stepU Vf MWf pkgs utab (ku K) (rekey o (fst rk) (snd rk))))) by (rewrite SU; reflexivity).
+      destruct o; simpl in KQ; try discriminate; cbn [reselects rekey] in *;
+        (apply ICI_keep; [exact I|]; intros i'; rewrite UH; apply stepU_PKP; intros; discriminate).
+    + destruct (stepU Vf MWf pkgs utab (ku K) o) as [U1 x] eqn:SU. cbn [fst].
+      assert (UH : uh U1 = uh (fst (stepU Vf MWf pkgs utab (ku K) o))) by (rewrite SU; reflexivity).
+      destruct o; simpl in KQ; try discriminate; cbn [reselects] in *;
+        (apply ICI_keep; [exact I|]; intros i'; rewrite UH; apply stepU_PKP; intros; discriminate).
+  - destruct (stepU Vf MWf pkgs utab (ku K) o) as [U1 x] eqn:SU. cbn [fst].
+    assert (UH : uh U1 = uh (fst (stepU Vf MWf pkgs utab (ku K) o))) by (rewrite SU; reflexivity).
+    destruct o; simpl in KQ; try discriminate; cbn [reselects] in *;
+      (apply ICI_keep; [exact I|]; intros i'; rewrite UH; apply stepU_PKP; intros; discriminate).
+  - destruct (stepU Vf MWf pkgs utab (ku K) o) as [U1 x] eqn:SU. cbn [fst].
+    assert (UH : uh U1 = uh (fst (stepU Vf MWf pkgs utab (ku K) o))) by (rewrite SU; reflexivity).
+    assert (XH : x = snd (stepU Vf MWf pkgs utab (ku K) o)) by (rewrite SU; reflexivity).
+    destruct o as [ |i w|i w|i|i u r k|i u r k v|i u|i u v|i w r k v|i w v|i v|i v|i p|i l|i j f p t|i|i j|i kk|i kk|i w u r k|i w u r k v|i j w|i w r1 r2|fl];
+      simpl in KQ; try discriminate; cbn [reselects];
+      try (apply ICI_keep; [exact I|]; intros i'; rewrite UH; apply stepU_PKP; intros; discriminate);
+      try (apply ICI_refresh; [exact I|]; apply PKP_SHP; rewrite UH; apply stepU_PKP; intros; try discriminate;
+           match goal with H : tgt _ = Some _ |- _ => simpl in H; inversion H; reflexivity end).
+    + (* _reset_thermo: the package of stream i changes, its dict is re-selected *)
+      apply ICI_refresh; [exact I|]. rewrite UH. unfold stepU, liftU, step.
+      destruct (nth_error (streams (uh (ku K))) i) as [s|] eqn:Hs; [|apply PKP_SHP, PKP_same; reflexivity].
+      unfold reset_thermo. destruct (Nat.eqb (pkg s) kk) eqn:Q; cbn [fst snd uh with_heap pm_set].
+      * apply PKP_SHP, PKP_same. reflexivity.
+      * destruct (reset_none_shape (uh (ku K)) i s kk) as (a & s1 & S1 & _).
+        split; [rewrite S1, upd_length; reflexivity|]. intros j y H N. rewrite S1 in H.
+        rewrite nth_error_upd_other in H by auto. exists y. auto.
+    + (* from_streams: one more stream, whose new MaterialIndexer selects its own dict *)
+      destruct (stepU_from_heap (ku K) fl) as (HH & HX). rewrite <- UH in HH. rewrite <- XH in HX.
+      destruct I as (L & IC).
+      destruct (from_streams_cases (uh (ku K)) fl) as [(E & NX)|(X & a & g & snew & G & _ & _ & _ & _ & _ & S)].
+      * rewrite HX. destruct (snd (from_streams (uh (ku K)) fl)); cbn [is_none]; try congruence;
+          (split; cbn [ku k_ic]; [rewrite HH, E; exact L|]; intros j s' H; rewrite HH, E in H; unfold ic_get; cbn [k_ic]; apply IC; exact H).
+      * rewrite HX, X. cbn [is_none]. unfold ICI, ic_get, ic_refresh. cbn [ku k_ic].
+        set (n := length (streams (uh (ku K)))) in *.
+        assert (LM : length (map (fun js => g (fst js) (snd js)) (combine (seq O n) (streams (uh (ku K))))) = n).
+        { rewrite map_length, combine_length, seq_length. unfold n. lia. }
+        assert (HN : nth_error (streams (uh U1)) n = Some snew).
+        { rewrite HH, S. rewrite nth_error_app2 by lia. rewrite LM, Nat.sub_diag. reflexivity. }
+        rewrite HN. split.
+        -- rewrite upd_length, app_length, HH, S, app_length, LM. simpl. lia.
+        -- intros j s' H. destruct (Nat.eq_dec j n) as [QQ|N].
+           ++ subst j. rewrite nth_upd_eq by (rewrite app_length; simpl; lia). congruence.
+           ++ rewrite nth_upd_neq by auto. rewrite HH, S in H.
+              destruct (Nat.lt_ge_cases j n) as [LT|GE].
+              ** rewrite nth_error_app1 in H by lia. unfold n in H. rewrite nth_error_map_seq in H. simpl in H.
+                 destruct (nth_error (streams (uh (ku K))) j) as [sj|] eqn:EJ; simpl in H; [|discriminate]. inversion H.
+                 destruct (G j sj) as (t & Gt). rewrite Gt. rewrite nth_app_lt by lia.
+                 change (ic_of (retc sj t)) with (ic_of sj). apply IC. exact EJ.
+              ** rewrite nth_error_app2 in H by lia. rewrite LM in H.
+                 destruct (j - n)%nat as [|m] eqn:QQ; simpl in H; [exfalso; lia|destruct m; discriminate].
+Qed.
+
+Lemma ICI_runK ops : forall K, ICI K -> ICI (fst (runK Vf MWf pkgs utab K ops)).
+Proof.
+  induction ops as [|o ops IH]; intros K I; simpl; auto.
+  pose proof (ICI_stepK K o I) as I1. destruct (stepK Vf MWf pkgs utab K o) as [K1 x]. cbn [fst] in I1.
+  specialize (IH K1 I1). destruct (runK Vf MWf pkgs utab K1 ops) as [K2 xs]. exact IH.
+Qed.
+Lemma ICI_buildK l : ICI (buildK l).
+Proof.
+  split; simpl. apply map_length.
+  intros i s H. unfold ic_get; simpl. erewrite nth_map_some; eauto.
+Qed.
+
+(* the other invariants go through the outer layer unchanged: stepK runs stepU on an operation *)
+Lemma stepK_stepU K o : fst (stepK Vf MWf pkgs utab K o) = K \/
+  exists o1, ku (fst (stepK Vf MWf pkgs utab K o)) = fst (stepU Vf MWf pkgs utab (ku K) o1).
+Proof.
+  unfold stepK.
+  match goal with |- context [match ?ee with Ok _ => _ | Err _ => _ end] => destruct ee as [o1|er] end; [|left; reflexivity].
+  right. exists o1. destruct (stepU Vf MWf pkgs utab (ku K) o1) as [U1 x]. reflexivity.
+Qed.
+Lemma lift_runK (P : ustate -> Prop) : (forall U o, P U -> P (fst (stepU Vf MWf pkgs utab U o))) ->
+  forall ops K, P (ku K) -> P (ku (fst (runK Vf MWf pkgs utab K ops))).
+Proof.
+  intros ST. induction ops as [|o ops IH]; intros K H; simpl; auto.
+  assert (H1 : P (ku (fst (stepK Vf MWf pkgs utab K o)))).
+  { destruct (stepK_stepU K o) as [E|(o1 & E)]; rewrite E; auto. }
+  destruct (stepK Vf MWf pkgs utab K o) as [K1 x]. cbn [fst] in H1.
+  specialize (IH K1 H1). destruct (runK Vf MWf pkgs utab K1 ops) as [K2 xs]. exact IH.
 Qed.
 
 End Proofs.
